@@ -173,7 +173,7 @@ def units():
                  " + enc_namelist(g_scomp) + enc_namelist(g_clang) + enc_namelist(g_slang) + enc_bool(g_follows) + u32(g_unused)"]),
         harness=None))
     U.append(Unit(Contract(
-        'SSH2_Kex.parse', params=dict(payload='bytes', outputbuffer='const:None'), may_raise={'struct.error': "True"},
+        'SSH2_Kex.parse', params=dict(payload='bytes', outputbuffer='const:None'), raises={}, may_raise={'struct.error': "True"},
         opaque=('fld', 'nxt'),
         let={'P1': '16', 'P2': 'nxt(payload, P1)', 'P3': 'nxt(payload, P2)', 'P4': 'nxt(payload, P3)', 'P5': 'nxt(payload, P4)',
              'P6': 'nxt(payload, P5)', 'P7': 'nxt(payload, P6)', 'P8': 'nxt(payload, P7)', 'P9': 'nxt(payload, P8)',
